@@ -46,34 +46,39 @@ def run(ctx):
                    re.search(r'try_from|len\(|size', org + adj, re.I) is not None, detail=(adj + ' <- ' + org)[:220], site=loc(t.get('span')))
             out = T.op_term(fn, t['args'][0])
             ctx.ob('C09-D1', n, 'stream passed to adjust_known_offsets', 'the output stream', 'output' in out, detail=out[:80], nontrivial=False)
-        # Ok returns after the shift is known: reachable without the fix-up only on the shift == 0 edge
+        # Ok returns after the shift is known: reachable without the fix-up only on the shift == 0 edge.  The shift variable is identified
+        # as the local that feeds the 4th argument of the fix-up call (through by-value copies), not by its name.
+        def src_local(blk_i, op):
+            if 'l' not in op or op.get('p'):
+                return None
+            cur = op['l']
+            for _ in range(4):
+                found = None
+                for blk in fn.B:
+                    for d2, r2 in blk['s']:
+                        if d2['l'] == cur and not d2['p'] and r2['k'] == 'use' and 'l' in r2['o'] and not r2['o'].get('p') and fn.name_of(cur).startswith('_'):
+                            found = r2['o']['l']
+                if found is None:
+                    break
+                cur = found
+            return cur
+        shift_locals = set(x for x in (src_local(s_, fn.B[s_]['t']['args'][3]) for s_ in sites if len(fn.B[s_]['t']['args']) > 3) if x is not None)
         cs = []
         for cb, blk in enumerate(fn.B):
             for si, (dst, rv) in enumerate(blk['s']):
                 if rv['k'] == 'bin' and rv['op'] in ('Eq', 'Ne'):
-                    def nm(o):
-                        if 'l' not in o or o.get('p'):
-                            return None
-                        n0 = fn.name_of(o['l'])
-                        if n0 and not n0.startswith('_'):
-                            return n0
-                        for d2, r2 in blk['s'][:si]:      # a copy made for the comparison
-                            if d2['l'] == o['l'] and not d2['p'] and r2['k'] == 'use' and 'l' in r2['o'] and not r2['o'].get('p'):
-                                return fn.name_of(r2['o']['l'])
-                        return n0
-                    names = [nm(o) for o in (rv['a'], rv['b'])]
+                    locs = [src_local(cb, o) for o in (rv['a'], rv['b'])]
                     consts = [T.op_term(fn, o) for o in (rv['a'], rv['b'])]
                     tt = blk['t']
-                    if 'offset_adjust' in names and '0' in consts and tt['k'] == 'switch' and tt['d']['l'] == dst['l']:
+                    if (set(locs) & shift_locals) and '0' in consts and tt['k'] == 'switch' and tt['d']['l'] == dst['l']:
                         zero = [x for v, x in tt['ts'] if v == 0]
                         if zero:
                             eq_t = tt['o'] if rv['op'] == 'Eq' else zero[0]
                             cs.append((cb, eq_t))
         zero_edges = set(cs)     # (cmp block, eq target): shift == 0
         okr = C07.ok_returns(fn)
-        # definition point of the shift: blocks that assign a local named offset_adjust
-        defs = [bi for bi, b in enumerate(fn.B) for dst, rv in b['s'] if not dst['p'] and fn.name_of(dst['l']) == 'offset_adjust']
-        if not ctx.ob('C09-D1', n, 'offset_adjust', 'is computed in the function', bool(defs), nontrivial=False):
+        defs = [bi for bi, b in enumerate(fn.B) for dst, rv in b['s'] if not dst['p'] and dst['l'] in shift_locals]
+        if not ctx.ob('C09-D1', n, 'shift value', 'is computed in the function', bool(defs), nontrivial=False):
             continue
         late = set()
         for d in defs:
